@@ -213,6 +213,7 @@ func C01(c *Ctx) {
 	c.R.Rule("C01-R7", "E1", "matching leaves the pattern and the message intact (answers are about the pattern and message the caller holds)", 8)
 	c.R.Rule("C01-R8", "E3+E5", "a pattern of one kind (map, array, number, boolean) is only matched by a message part of the same kind", 4)
 	c.R.Rule("C01-R9", "E3", "the variable predicates mean what the documentation says", 2)
+	c.shareRule("C02", "C02-R7", "C01-R13", "every key of the pattern is present in the message: presence is decided by the lookup's ok flag, not by the value found (an absent key reads as null)")
 	c.shareRule("C03", "C03-R1", "C01-R11", "an answer is about the pattern and message of this call: the matcher keeps nothing between calls (a memo answers for another pattern)")
 	c.R.Rule("C01-R12", "E5+E3", "a pattern string is compared with a message string only once it is known to be a constant", 1)
 	c.R.Rule("C01-R10", "E3+E5", "a pattern array's variable and constants are what getVariable found, and a variable is matched by arraycatMatch before the array case succeeds", 4)
